@@ -33,10 +33,12 @@ def models():
         return FL.base.Flow(TR.PointwiseAffineTransform(shift=0.5, scale=2.0), D.ConditionalDiagonalNormal([2]))
 
     def emb_flow():
+        # the embedding changes the width of the context: whatever consumes the context inside the flow
+        # must be given the embedded one
         return FL.base.Flow(
-            TR.AffineCouplingTransform([1, -1], lambda i, o: nets.ResidualNet(i, o, hidden_features=4, context_features=4, num_blocks=1)),
-            D.ConditionalDiagonalNormal([2], context_encoder=torch.nn.Linear(4, 4)),
-            embedding_net=torch.nn.Linear(4, 4),
+            TR.AffineCouplingTransform([1, -1], lambda i, o: nets.ResidualNet(i, o, hidden_features=4, context_features=3, num_blocks=1)),
+            D.ConditionalDiagonalNormal([2], context_encoder=torch.nn.Linear(3, 4)),
+            embedding_net=torch.nn.Linear(4, 3),
         )
 
     return {
@@ -120,6 +122,12 @@ def task(t):
                 if "Bernoulli" in name:
                     x = (x > 0).float()
                 ctx = make_context(torch, name, rows, event, marker)
+                # the interface converts array-likes itself (torch.as_tensor): the contract is the same for
+                # a tensor, a numpy array and a nested list
+                if ctx is not None:
+                    ck = (r1 + rows + seed) % 3
+                    ctx = ctx if ck == 0 else ctx.numpy() if ck == 1 else ctx.tolist()
+                    case["context_as"] = ("tensor", "numpy", "list")[ck]
                 kind, r = outcome(lambda: m.log_prob(x, context=ctx) if ctx is not None else m.log_prob(x))
                 want = str(spec["o"])
                 if want == "shape":
